@@ -490,7 +490,12 @@ func (c *Ctx) havocLoop(fr *frame, l *loopInfo, st *State) {
 			freshOnly[k] = false
 		}
 	}
+	wholeKeys := make([]HKey, 0, len(whole))
 	for k := range whole {
+		wholeKeys = append(wholeKeys, k)
+	}
+	sort.Slice(wholeKeys, func(i, j int) bool { return wholeKeys[i].String() < wholeKeys[j].String() })
+	for _, k := range wholeKeys {
 		s := leafSortForKey(k)
 		if s == nil {
 			continue
@@ -525,7 +530,17 @@ func (c *Ctx) havocLoop(fr *frame, l *loopInfo, st *State) {
 		}
 	}
 	// cells: only those that exist before the loop
+	mcs := make([]*ssa.Alloc, 0, len(modCells))
 	for a := range modCells {
+		mcs = append(mcs, a)
+	}
+	sort.Slice(mcs, func(i, j int) bool {
+		if mcs[i].Pos() != mcs[j].Pos() {
+			return mcs[i].Pos() < mcs[j].Pos()
+		}
+		return mcs[i].Name() < mcs[j].Name()
+	})
+	for _, a := range mcs {
 		pv, ok := st.regs[a]
 		if !ok || pv.Ptr == nil || pv.Ptr.Cell == nil {
 			continue
@@ -742,7 +757,7 @@ func (c *Ctx) havocGhost(st *State) {
 // everything after the old length is unknown.
 func (c *Ctx) appendedLog(st *State, g *Val) *Val {
 	nl := Fresh("wlen", BV(64))
-	c.assume(st.pc, And(SLe(g.L[1], nl), SLe(nl, Const(64, 1<<50))))
+	c.assume(st.pc, And(SLe(g.L[1], nl), SLe(nl, Const(64, 1<<50)), ULe(g.L[1], nl), ULe(nl, Const(64, 1<<50))))
 	fr := Fresh("wlog", g.L[0].S)
 	i := BoundVar("i", BV(64))
 	na := Lambda(i, Ite(ULt(i, g.L[1]), Select(g.L[0], i), Select(fr, i)))
